@@ -31,7 +31,11 @@ def run(ctx):
     R5 = rep.rule('C08.R5', 'no lock guard live across user code / blocking calls / another lock acquisition', floor=4)
     rep.assumptions += ['drop glue of stored values running under a shard write lock (or_insert dropping a race loser) is not counted as user code',
                         'crossbeam unbounded channels deliver every sent message in FIFO order']
+    S1 = rep.rule('C10.R1', 'every entry the reloader may write has a lock: entries are dynamic exactly when HOT_RELOADED && the cache has a reloader, at both creation sites, so UntypedEntry::write cannot hit wrong_handle_type() and kill the reloader before it answers (shared with C10)', floor=2)
     for cfg, F in ctx.hr_cfgs():
+        from c10 import r1 as dynamic_iff
+        dynamic_iff(S1, cfg, F, True)
+        S1.finish_cfg(cfg)
         r1(R1, cfg, F)
         r2(R2, cfg, F)
         r3(R3, cfg, F)
